@@ -40,8 +40,9 @@ import (
 //     [0, len): append and splice overwrite such a slot before it becomes
 //     visible, nothing reads it first.
 //   - Go map internals (bucket layout, iteration order): the two iterating
-//     operations write the same value to every key / every array child, so
-//     their effect is order independent; an iteration over an immutable target
+//     operations write the same value to every key / every non-empty mutable
+//     array child and no write inside the loop can fail half way (ops.go), so
+//     their effect is order independent; `X[k] = 9` over an immutable target
 //     fails at the first element, changing nothing.
 //   - the route strings (heap.chain): used only to name signatures.
 //   - records of immutable values that are no longer reachable from
